@@ -141,7 +141,8 @@ Check3(c, r) ==
        IF r.nthroot_mod_list.exc = "" /\ ~Ascending(IntList(r.nthroot_mod_list)) THEN "bad:nthroot_mod_list:order" ELSE "",
        IF r.nthroot_mod.exc # "" THEN "bad:nthroot_mod:exception:" \o r.nthroot_mod.exc
        ELSE IF (r.nthroot_mod.rc = 1) # (roots # {}) THEN "bad:nthroot_mod:existence"
-       ELSE IF r.nthroot_mod.rc = 1 /\ r.nthroot_mod.v.n \notin roots THEN "bad:nthroot_mod" ELSE "",
+       \* (nthroot_mod promises a solution, not the least non-negative representative: compared as a residue)
+       ELSE IF r.nthroot_mod.rc = 1 /\ (r.nthroot_mod.v.n % m) \notin roots THEN "bad:nthroot_mod" ELSE "",
        EqN("is_nth_residue", r.is_nth_residue, IF roots # {} THEN 1 ELSE 0),
        IF r.powermod.exc # "" THEN "bad:powermod:exception:" \o r.powermod.exc
        ELSE IF (r.powermod.rc = 1) # (pows # {}) THEN "bad:powermod:existence"
